@@ -53,14 +53,11 @@ Theorem C10_run_depends_on_norm : forall cfg r1 r2,
 Proof. exact fmt_run_depends_on_norm. Qed.
 Print Assumptions C10_run_depends_on_norm.
 
-(* formatting a formatted run again (same position, width and depth) changes nothing.  Proved for every
-   run that is followed by a token; C10_run_idempotent_partial: the run that ends the file
-   (f_at_end = true, where the last substitution rewrites the trailing white space) is not covered by this
-   theorem, it is checked on real luafmt output by the monitor *)
-Theorem C10_run_idempotent_partial : forall cfg r, f_at_end cfg = false ->
-  fmt_run cfg (fmt_run cfg r) = fmt_run cfg r.
-Proof. exact fmt_run_idempotent. Qed.
-Print Assumptions C10_run_idempotent_partial.
+(* formatting a formatted run again (same position, width and depth) changes nothing: for every run, also
+   the one that ends the file *)
+Theorem C10_run_idempotent : forall cfg r, fmt_run cfg (fmt_run cfg r) = fmt_run cfg r.
+Proof. exact fmt_run_idempotent_all. Qed.
+Print Assumptions C10_run_idempotent.
 
 (* the exact line form of the output: the run, split at line feeds after the tab / line-end
    normalisation, is mapped line by line (fmt_lines) and joined again *)
